@@ -68,12 +68,68 @@ def gen_case20(rng, name):
                         S("c2", "ccopy", "c1", uid=22), S("", "cmirror", "c2", uid=23)]
     c.graphs["main2"] = [S("d", "creplay", shape=sh, key="r1"), S("", "cmirror", "d", uid=11), S("", "crecord", "d", key="r2")]
     c.graphs["main3"] = [S("d", "creplay", shape=sh, key="r2"), S("", "cmirror", "d", uid=12), S("", "crecord", "d", key="r3")]
+    if sh != "tsw" and rng.random() < 0.3:
+        # the persistent "memory" backend: (absolute time, delta) entries appended under :memory:<id>.<key>, replayed at
+        # their recorded times (a second implementation of record and of the replay read path)
+        c.meta["backend"] = "memory"
+        c.opts["gsdump"] = ",".join(f":memory:verif.rec.r{j}" for j in (1, 2, 3))
+        for g in ("main", "main2", "main3"):
+            for st in c.graphs[g]:
+                if st.op == "crecord":
+                    st.op = "srecord"
+                    st.kw["rid"] = "verif.rec"
+                elif st.op == "creplay":
+                    st.op = "sreplay"
+                    st.kw["rid"] = "verif.rec"
     return c
+
+
+def gen_branch_recorder(rng, name):
+    """The "memory" recorder inside a switch_ branch that is left and re-entered while the recorded series keeps ticking: the
+    record node is started again with its recording already holding ticks. Stage 2 replays the recording. Oracle: the replayed
+    (time, value) stream equals the stream the recorder's input had in stage 1, over all activations of the branch."""
+    end = rng.choice([20, 30, 40])
+    c = Case(name, 0, end)
+    ks = sorted(rng.sample(range(0, end - 2), rng.choice([3, 4, 6])))
+    c.scripts[1] = [(t, 1 + (j % 2)) for j, t in enumerate(ks)]                     # key alternates 1, 2, 1, ...
+    c.scripts[2] = [(t, 100 + t) for t in range(0, end) if rng.random() < 0.7]
+    c.graphs["fn0"] = [S("e", "pass", "p0", uid=100), S("", "srecord", "e", key="out", rid="verif.br"), S("", "RET", "e")]
+    c.graphs["fn1"] = [S("e", "count", "p0", uid=101), S("", "RET", "e")]
+    c.graphs["main"] = [S("k", "src", uid=1, mode=1), S("a", "src", uid=2, mode=1), S("s", "switch", "k", "a", cases="1:fn1:0,2:fn1:1"),
+                        S("", "rec", "s", uid=50)]
+    c.graphs["main2"] = [S("d", "sreplay", shape="ts", key="out", rid="verif.br"), S("", "rec", "d", uid=60)]
+    c.opts["gsdump"] = ":memory:verif.br.out"
+    c.meta["kind"] = "branch_recorder"
+    c.meta["shape"] = "ts"
+    return c
+
+
+def check_branch_recorder(case, tr):
+    res = Result(signature=case.text().split("\n", 1)[1])
+    if tr.build_error or len(tr.runs) < 2 or any(r.error for r in tr.runs):
+        res.violations.append(Violation(f"staged run did not complete: {tr.build_error or [r.error for r in tr.runs]}"))
+        return res
+    src = sorted((ue.t, ue.out) for ue in tr.runs[0].uevals() if ue.uid == 100)
+    rep = sorted((ue.t, ue.ins[0][3]) for ue in tr.runs[1].uevals() if ue.uid == 60)
+    activations = 0
+    prev = None
+    for t, v in case.scripts[1]:
+        if v == 1 and prev != 1:
+            activations += 1
+        prev = v
+    if rep != src:
+        missing = [x for x in src if x not in rep][:5]
+        extra = [x for x in rep if x not in src][:5]
+        res.violations.append(Violation(f"replay of a recording made inside a branch that was active {activations} time(s): recorded input had "
+                                        f"{len(src)} ticks, the replay {len(rep)}; missing {missing}, unexpected {extra}"))
+    res.counters = {"branch_recorder_ticks_compared": len(src), "branch_recorder_reactivations": max(0, activations - 1)}
+    res.nontrivial = activations >= 2 and len(src) >= 3
+    return res
 
 
 def generate(rng, tier, seed):
     n = scaled(300 if tier == "quick" else 5000)
-    return [gen_case20(rng, f"c20_{seed}_{k}") for k in range(n)]
+    return [gen_case20(rng, f"c20_{seed}_{k}") for k in range(n)] + [gen_branch_recorder(rng, f"c20_{seed}_br{k}") for k in range(n // 6)]
 
 
 def empty_structural(d):
@@ -279,6 +335,8 @@ def check(case, tr):
     if tr.build_error:
         res.violations.append(Violation(f"valid program rejected at build: {tr.build_error}"))
         return res
+    if case.meta.get("kind") == "branch_recorder":
+        return check_branch_recorder(case, tr)
     if len(tr.runs) < 3:
         res.violations.append(Violation("staged run did not complete"))
         return res
@@ -294,7 +352,8 @@ def check(case, tr):
     known = {}
     rep_cmp = copy_cmp = 0
     streams = [("copy#1", copies[0], False), ("copy#2", copies[1], False), ("replay#1", reps[0], True), ("replay#2", reps[1], True)]
-    if case.start != 0:
+    memory = case.meta.get("backend") == "memory"       # absolute-time entries: no cycle-index shift
+    if case.start != 0 and not memory:
         # known finding F9: dense_record indexes its buffer from MIN_ST, replay reads it from the run's start time
         streams = streams[:2]
         for stage, rep in enumerate(reps, 1):
@@ -344,7 +403,14 @@ def check(case, tr):
                 gs[(int(tk[0]), tk[1])] = tk[2]
     bufcmp = 0
     r1, r2, r3 = gs.get((2, "r1")), gs.get((2, "r2")), gs.get((2, "r3"))
-    if case.start != 0:
+    if memory:
+        r1, r2, r3 = (gs.get((2, f":memory:verif.rec.r{j}")) for j in (1, 2, 3))
+    if memory:
+        # (time, delta) entries render their time as an opaque type name and drop/keep structurally empty ticks like the
+        # replay does: the buffers are judged through the replayed ticks; only their presence is checked here
+        if d0 and (r1 is None or r2 is None or r3 is None):
+            V.append("recorded buffers missing from the global state (memory backend)")
+    elif case.start != 0:
         bufcmp = 0
     elif r1 is not None and r2 is not None and r3 is not None:
         bufcmp = 1
@@ -359,7 +425,7 @@ def check(case, tr):
         res.violations.append(Violation(msg))
     for mech, msg in known.items():
         res.violations.append(Violation(msg, mech))
-    res.counters = {"long_dense_recordings": case.meta.get("long_run", 0),
+    res.counters = {"long_dense_recordings": case.meta.get("long_run", 0), "memory_backend_chains": 1 if memory else 0,
                     "replayed_ticks_compared": rep_cmp, "copy_ticks_compared": copy_cmp, "buffers_compared": bufcmp,
                     "known_deviation_cases": 1 if known else 0}
     res.nontrivial = len(d0) >= 4
